@@ -15,12 +15,14 @@ def generatedCatches : Exc → Bool
   | .recursionError => Generated.C19.catchesRecursionError
   | .typeError => Generated.C19.catchesTypeError
   | .other => false
+  | .osError => false        -- raised by `sendto`, not by the decoding
 
 def generatedTables : Tables :=
   { maxLen := Generated.C19.maxMessageLen, recvBuf := Generated.C19.recvBufSize,
     budgetPort := Generated.C19.budgetPort, fwPrefix := Generated.C19.firmwarePrefix,
     seg0 := Generated.C19.seg0, seg1 := Generated.C19.seg1, seg2 := Generated.C19.seg2,
-    seg3 := Generated.C19.seg3, seg4 := Generated.C19.seg4, catches := generatedCatches }
+    seg3 := Generated.C19.seg3, seg4 := Generated.C19.seg4, catches := generatedCatches,
+    catchesSend := Generated.C19.catchesSendError }
 
 def generatedServerTables : ServerTables :=
   { resetPerRound := Generated.C19.interfacesResetPerRound,
